@@ -67,6 +67,17 @@ Theorem C06_wf_carrier_decidable : forall c, wf_carrierb c = true -> wf_carrier 
 Proof. exact wf_carrierb_sound. Qed.
 Print Assumptions C06_wf_carrier_decidable.
 
+(* the condition cuts_ok is necessary: with a packet boundary exactly at the end of the preceding section every other
+   hypothesis holds and the reader answers ErrNoPayloadUnitStartIndicator (remark (i) of DESIGN C06: such a split is not
+   a packetisation of one payload unit - ISO 13818-1 starts a new unit there) *)
+Theorem C06_L4_inner_end_cut_refuted :
+  exists c pid items,
+    wf_carrier c /\ sstreams (sec c) <> [] /\ Forall (wf_item pid) items /\ concat (chunks items) = ser_payload c /\
+    inner_end c (len (concat (chunks (firstn 1 items)))) /\
+    read_pmt (packetise pid items) pid = Err E.NoPayloadUnitStartIndicator.
+Proof. exact inner_end_cut_refuted. Qed.
+Print Assumptions C06_L4_inner_end_cut_refuted.
+
 (* K1 (known finding, by design of ReadPMT): with an EMPTY stream list every other hypothesis of L4 holds, the
    payload parses (L2), and the reader still answers ErrPMTNotFound.  So L4 cannot drop `sstreams <> []`. *)
 Definition C06_L4_any_stream_list_full : Prop := forall c pid items,
